@@ -534,6 +534,392 @@ def check_secured_shb(ctx, clock):
     ctx.cover("secured_shb" + ("_verified" if gate else "_unverified"))
 
 
+# ------------------------------------------------------------------------------------------------
+# Round 5: security-ENABLED origination (the basic header stays in the clear, the common header with MHL is inside the
+# signed envelope) for every transport, every requested hop limit, MIB defaults and lifetimes
+
+SEC_TRANSPORTS = ["shb", "gbc", "gac", "guc", "beacon", "ls_request"]
+SEC_BRANCH = ("shb", "gbc", "gac")                     # source operations with an itsGnSecurity == ENABLED branch
+SEC_PROFILES = {"shb": ["cam", "vam", "none"], "gbc": ["denm", "none"], "gac": ["denm", "none"]}
+_ENVELOPE = b"C20ENV"
+
+
+class SecTx:
+    """a security-enabled real Router to originate from.  Preferred: sec_common's RouterStation (real SignService, real
+    certificates; the envelope is parsed by sec_common.decode_signed, independent of the Router).  If those helpers
+    (owned by another builder) fail, a transparent SN-SIGN stand-in (envelope = marker + to-be-signed octets) keeps the
+    sweep alive - the Router's header assembly is what C20 judges, not the signature."""
+
+    def __init__(self, clock):
+        self.clock = clock
+        self.n = 0
+        self.real = True
+        try:
+            self._setup_real(clock)
+        except Exception as e:  # noqa: BLE001
+            self.real = False
+            self.why = f"{type(e).__name__}: {e}"
+            self._setup_transparent(clock)
+
+    def _setup_real(self, clock):
+        import sec_common as sc
+        now = sc.its_now_s(clock.ms)
+        live = dict(start=now - 1000, duration=("hours", 100))
+        p = sc.PKI()
+        root = p.root("root", **live)
+        aa = p.issue(root, "aa", issue=[sc.perm_all(1)], **live)
+        at = p.issue(aa, app=[36, 37, 638, 99], **live)
+        with rs.quiet():
+            st = sc.RouterStation(p.backend, 1, [root], [aa], [], own=[at])
+            rx = sc.RouterStation(p.backend, 2, [root], [aa], [], lat=415000010, lon=21000010)
+            st.set_position(clock.ms)
+            rx.set_position(clock.ms)
+        self.sc, self.router, self.ll, self.rx = sc, st.router, st.ll, rx
+
+    def _setup_transparent(self, clock):
+        from flexstack.geonet.mib import GnSecurity
+        from flexstack.security.sign_service import SignService
+        from flexstack.security.sn_sap import SNSIGNConfirm
+
+        class Transparent(SignService):
+            def __init__(self):  # noqa: super-init-not-called (no backend, no certificates)
+                pass
+
+            def _wrap(self, request):
+                m = _ENVELOPE + request.tbs_message
+                return SNSIGNConfirm(sec_message_length=len(m), sec_message=m)
+            sign_request = sign_cam = sign_denm = sign_other = _wrap
+        mib = MIB(itsGnLocalGnAddr=rs.gn_addr(1), itsGnSecurity=GnSecurity.ENABLED)
+        self.router = router_mod.Router(mib, sign_service=Transparent())
+        self.ll = rs.CaptureLL()
+        self.router.link_layer = self.ll
+        self.router.ego_position_vector = LongPositionVector(
+            gn_addr=mib.itsGnLocalGnAddr, tst=TST.set_in_normal_timestamp_milliseconds(clock.ms), latitude=415000000,
+            longitude=21000000, pai=True)
+        self.rx = None
+
+    def inner(self, pkt):
+        """octets behind the basic header as the receiver's common-header processing would see them (None: not parseable)"""
+        if pkt[0] & 15 != 2:
+            return pkt[4:]
+        if self.real:
+            dec = self.sc.decode_signed(pkt[4:])
+            if dec is None:
+                return None
+            try:
+                return bytes(dec[0]["tbsData"]["payload"]["data"]["content"][1])
+            except Exception:  # noqa: BLE001
+                return None
+        return pkt[4 + len(_ENVELOPE):] if pkt[4:].startswith(_ENVELOPE) else None
+
+    def emit(self, t, prof, h, d, ms, s):
+        """originate one packet; returns (frames, exception or None)"""
+        import dataclasses
+        from flexstack.security.security_profiles import SecurityProfile
+        r = self.router
+        r.mib = dataclasses.replace(r.mib, itsGnDefaultHopLimit=d, itsGnDefaultPacketLifetime=s)
+        life = None if ms is None else ms / 1000.0
+        sp, aid = {"cam": (SecurityProfile.COOPERATIVE_AWARENESS_MESSAGE, 36),
+                   "vam": (SecurityProfile.VRU_AWARENESS_MESSAGE, 638),
+                   "denm": (SecurityProfile.DECENTRALIZED_ENVIRONMENTAL_NOTIFICATION_MESSAGE, 37),
+                   "none": (SecurityProfile.NO_SECURITY, 99)}[prof or "none"]
+        common_kw = dict(upper_protocol_entity=CommonNH.BTP_B, data=b"ab", length=2, max_hop_limit=h,
+                         max_packet_lifetime=life, security_profile=sp, its_aid=aid)
+        self.ll.take()
+        self.n += 1
+        exc = None
+        try:
+            with rs.quiet():
+                if t == "beacon":
+                    r.gn_data_request_beacon()
+                elif t == "ls_request":
+                    r.gn_ls_request(rs.gn_addr(1000 + self.n % 50000))
+                elif t == "shb":
+                    r.gn_data_request(GNDataRequest(**common_kw))
+                elif t in ("gbc", "gac"):
+                    ht, hst = ((HeaderType.GEOBROADCAST, GeoBroadcastHST.GEOBROADCAST_CIRCLE) if t == "gbc"
+                               else (HeaderType.GEOANYCAST, GeoAnycastHST.GEOANYCAST_CIRCLE))
+                    r.gn_data_request(GNDataRequest(
+                        packet_transport_type=PacketTransportType(header_type=ht, header_subtype=hst),
+                        area=Area(latitude=415000000, longitude=21000000, a=100, b=100, angle=0), **common_kw))
+                elif t == "guc":
+                    peer = rs.gn_addr(2)
+                    if r.location_table.get_entry(peer) is None:
+                        pv = LongPositionVector(gn_addr=peer, tst=TST.set_in_normal_timestamp_milliseconds(self.clock.ms),
+                                                latitude=415001000, longitude=21001000, pai=True)
+                        r.location_table.new_shb_packet(pv, b"")
+                    r.gn_data_request(GNDataRequest(
+                        packet_transport_type=PacketTransportType(header_type=HeaderType.GEOUNICAST,
+                                                                  header_subtype=HeaderSubType.UNSPECIFIED),
+                        destination=peer, **common_kw))
+                else:
+                    raise Infra(f"unknown transport {t}")
+        except Infra:
+            raise
+        except Exception as e:  # noqa: BLE001 - the exception IS the observation
+            exc = e
+        return self.ll.take(), exc
+
+
+def judge_secured(tx, case, frames, exc):
+    """oracle on ONE security-enabled origination; returns (list of complaints, known-finding id or None, record or None)"""
+    t, prof, h, d, ms, s = case
+    if exc is not None:
+        return [f"secured {t}: origination raised {type(exc).__name__}: {exc}"], None, None
+    if not frames:
+        return [f"secured {t}: no packet emitted for hop limit {h}, default {d}"], None, None
+    pkt = frames[0]
+    if len(pkt) < 12:
+        return [f"secured {t}: {len(pkt)}-octet packet"], None, None
+    nh, code, rhl = pkt[0] & 15, pkt[2], pkt[3]
+    inner = tx.inner(pkt)
+    lt_ms = (code >> 2) * UNITS[code & 3]
+    want_ms = ms if (ms is not None and t in REQUEST_BUILT) else s * 1000
+    bad, fid = [], None
+    if inner is None or len(inner) < 8:
+        bad.append(f"secured {t}: the payload of the emitted secured packet cannot be parsed (MHL unreadable)")
+        mhl = None
+    else:
+        mhl = inner[6]
+        hb = oracle_hops(t, h, d, rhl, mhl)
+        if hb:
+            bad.append(f"secured {t} ({'itsGnSecurity ENABLED, NH=%d' % nh}): hop limits on the wire rhl={rhl} (basic header) "
+                       f"mhl={mhl} (common header{' inside the envelope' if nh == 2 else ''}) for request {h}, default {d} ({','.join(hb)})")
+    badl = oracle_lifetime(want_ms, lt_ms)
+    if badl:
+        bad.append(f"secured {t}: lifetime {lt_ms} ms on the wire for {'request' if ms is not None else 'MIB default'} "
+                   f"{want_ms} ms ({','.join(badl)})")
+        if not [b for b in bad if "hop limits" in b or "parsed" in b]:
+            fid = classify_lifetime(want_ms, badl)
+    return bad, fid, (nh, code, rhl, mhl)
+
+
+def secured_cases(ctx):
+    cases = []
+    full = list(range(256))
+    few = [0, 1, 2, 3, 9, 10, 11, 127, 128, 254, 255] + [ctx.rng.randrange(256) for _ in range(4)]
+    dflts = [0, 1, 2, 10, 255] if ctx.thorough else [1, 10, 255]
+    swept = {"gbc": 10, "gac": 255}        # quick: EVERY requested hop limit 0..255 on one MIB default per transport
+    k = 0
+    for t in SEC_TRANSPORTS:
+        profs = SEC_PROFILES.get(t, [None])
+        for d in dflts:
+            hs = [1] if t in ("beacon", "ls_request") else (full if (swept.get(t) == d or ctx.thorough) else few)
+            for h in hs:
+                # every profile for the 'not specified' values and one boundary, round-robin elsewhere
+                for pr in (profs if h in (0, 1, 2, 255) else [profs[k % len(profs)]]):
+                    cases.append((t, pr, h, d, None, 60))
+                k += 1
+    life_ms = [0, 49, 50, 99, 100, 499, 500, 700, 999, 1000, 1999, 60000, 600000, 630000, 999999, 1000000, 7000000]
+    life_ms += [ctx.rng.randrange(0, 700001) for _ in range(ctx.scale(12, 300))]
+    for t in ("shb", "gbc", "gac", "guc"):
+        for i, ms in enumerate(life_ms):
+            pr = SEC_PROFILES.get(t, [None])
+            cases.append((t, pr[i % len(pr)], [0, 1, 5][i % 3], 10, ms, 60))
+    for t in SEC_TRANSPORTS:
+        for s in [0, 1, 59, 60, 63, 64, 100, 600, 630, 631, 700, 999, 1000]:
+            cases.append((t, SEC_PROFILES.get(t, [None])[0], 1, 10, None, s))
+    return cases
+
+
+def check_secured(ctx, capped, clock):
+    tx = SecTx(clock)
+    if not tx.real:
+        msg = f"SECURED-ORIGINATION: sec_common station unavailable ({tx.why}); transparent SN-SIGN stand-in used"
+        ctx.note(msg)
+        print(msg)
+        ctx.cover("secured_transparent_signer")
+    lines, recs = [], []
+    for case in secured_cases(ctx):
+        t, prof, h, d, ms, s = case
+        frames, exc = tx.emit(t, prof, h, d, ms, s)
+        ctx.evals()
+        bad, fid, rec = judge_secured(tx, case, frames, exc)
+        for w in bad:
+            ctx.violation(w, {"kind": "secured", "case": list(case)}, fid)
+        ctx.cover(f"secured_{t}" + (f"_{prof}" if prof else ""))
+        ctx.nontrivial(("secured", t, prof, h > 1, d, ms is None, s if ms is None else ms))
+        if rec is not None:
+            recs.append((case, rec))
+            lines.append(f"orig 1 {capped} {MODEL_T.get(t, t)} {h} {d} {'-' if (ms is None or t not in REQUEST_BUILT) else ms} {s}")
+    if ctx.model_ok and lines:
+        for (case, (nh, code, rhl, mhl)), mo in zip(recs, ctx.model("LT", lines)):
+            m = [int(x) for x in mo.split()] if mo and mo[0].isdigit() else None
+            if m is None or [nh, code, rhl] != m[0:3] or (mhl is not None and mhl != m[3]):
+                ctx.mismatch("router.secured", list(case), [nh, code, rhl, mhl], mo)
+    # a receiving station (real VerifyService): what it reports upward never exceeds what is on the wire
+    if tx.real and tx.rx is not None:
+        for t, prof in (("shb", "cam"), ("gbc", "denm"), ("gac", "denm")):
+            frames, exc = tx.emit(t, prof, 7, 10, 1999, 60)
+            if exc is not None or len(frames) != 1:
+                continue
+            try:
+                with rs.quiet():
+                    out = tx.rx.receive(frames[0])
+            except Exception as e:  # noqa: BLE001 - sec_common's receive() belongs to another builder
+                ctx.note(f"secured receive skipped: {type(e).__name__}: {e}")
+                continue
+            ctx.evals()
+            lt_ms = (frames[0][2] >> 2) * UNITS[frames[0][2] & 3]
+            for ind in out[2]:
+                if ind.remaining_packet_lifetime is None or ind.remaining_packet_lifetime * 1000 > lt_ms or \
+                        ind.remaining_hop_limit != frames[0][3]:
+                    ctx.violation(f"secured {t}: indication reports {ind.remaining_packet_lifetime} s / hop limit "
+                                  f"{ind.remaining_hop_limit}; wire {lt_ms} ms / {frames[0][3]}",
+                                  {"kind": "secured", "case": [t, prof, 7, 10, 1999, 60], "rx": True})
+            ctx.cover(f"secured_rx_{t}_{'delivered' if out[2] else out[0]}")
+    if recs:
+        ctx.sample("secured", {"case": list(recs[0][0]), "nh_code_rhl_mhl": list(recs[0][1]), "real_signer": tx.real})
+
+
+# ------------------------------------------------------------------------------------------------
+# Round 5: several originating threads on ONE station under harness/dsched.py.  Whatever the interleaving, every packet
+# carries the lifetime / hop limits of ITS OWN request (the constructors keep no state between calls).
+
+def thread_scenarios(ctx):
+    pool = [50, 1000, 1999, 60000, 600000, 630000]
+    out = [
+        {"name": "same short lifetime after a long one", "prime": [["gbc", 600000]], "threads": [[["shb", 1000]], [["shb", 1000]]]},
+        {"name": "long and short at once", "prime": [["shb", 1000]], "threads": [[["gbc", 600000]], [["shb", 50]]]},
+        {"name": "alternating", "prime": [["shb", 60000]], "threads": [[["shb", 1000], ["gbc", 600000]], [["gbc", 600000], ["shb", 1000]]]},
+        {"name": "default lifetime beside a request", "prime": [["gbc", 630000]], "threads": [[["beacon", None], ["shb", 1999]], [["shb", 1999]]]},
+    ]
+    for i in range(ctx.scale(1, 8)):
+        r = ctx.rng
+        a, b = r.choice(pool), r.choice(pool)
+        mk = lambda ms: [r.choice(["shb", "gbc", "gac"]), ms]   # noqa: E731
+        out.append({"name": f"random {i}", "prime": [mk(a)],
+                    "threads": [[mk(b)] + [mk(r.choice(pool)) for _ in range(r.randrange(2))],
+                                [mk(b)] + [mk(r.choice(pool)) for _ in range(r.randrange(2))]] +
+                               ([[mk(r.choice([a, b]))]] if r.random() < 0.3 else [])})
+    return out
+
+
+def _bh_codes():
+    """code objects of every function of geonet/basic_header.py's classes (pre-empted at every attribute access / call)"""
+    import flexstack.geonet.basic_header as bh_mod
+    out = []
+    for cls in (bh_mod.BasicHeader, bh_mod.LT):
+        for f in vars(cls).values():
+            f = getattr(f, "__func__", f)
+            if hasattr(f, "__code__"):
+                out.append(f.__code__)
+    return out
+
+
+def _thread_request(r, t, ms, tag):
+    life = None if ms is None else ms / 1000.0
+    if t == "beacon":
+        r.gn_data_request_beacon()
+    elif t == "shb":
+        r.gn_data_request(GNDataRequest(upper_protocol_entity=CommonNH.BTP_B, data=tag, length=len(tag),
+                                        max_hop_limit=1, max_packet_lifetime=life))
+    else:
+        ht, hst = ((HeaderType.GEOBROADCAST, GeoBroadcastHST.GEOBROADCAST_CIRCLE) if t == "gbc"
+                   else (HeaderType.GEOANYCAST, GeoAnycastHST.GEOANYCAST_CIRCLE))
+        r.gn_data_request(GNDataRequest(
+            upper_protocol_entity=CommonNH.BTP_B, data=tag, length=len(tag),
+            packet_transport_type=PacketTransportType(header_type=ht, header_subtype=hst),
+            area=Area(latitude=415000000, longitude=21000000, a=100, b=100, angle=0),
+            max_hop_limit=7, max_packet_lifetime=life))
+
+
+def run_thread_scenario(clock, sc, policy):
+    """one execution under a scheduling policy: returns (scheduler, [(tag, transport, ms, frame or None)], problems)"""
+    import dsched
+    import flexstack.geonet.location_table as loct_mod
+    with dsched.patched([router_mod, loct_mod], extra={"Timer": _NoTimer}):
+        r, ll, _ = rs.make_router(1)
+        r.ego_position_vector = LongPositionVector(gn_addr=r.mib.itsGnLocalGnAddr,
+                                                   tst=TST.set_in_normal_timestamp_milliseconds(clock.ms),
+                                                   latitude=415000000, longitude=21000000, pai=True)
+        reqs = []
+        with rs.quiet():
+            for i, (t, ms) in enumerate(sc["prime"]):
+                tag = b"P%02d." % i
+                reqs.append((tag, t, ms))
+                _thread_request(r, t, ms, tag)
+            s = dsched.DSched(policy, line_files=(), opcode_codes=_bh_codes(), line_points=False, max_steps=40000)
+            s.timer_filter = lambda t: False
+            for ti, lst in enumerate(sc["threads"]):
+                mine = []
+                for i, (t, ms) in enumerate(lst):
+                    tag = b"T%d%02d." % (ti, i)
+                    reqs.append((tag, t, ms))
+                    mine.append((t, ms, tag))
+                s.spawn((lambda mine=mine: [_thread_request(r, t, ms, tag) for (t, ms, tag) in mine] and None), name=f"T{ti}")
+            s.run(timeout=30.0)
+        problems = [f"thread {t.name} raised {type(t.exc).__name__}: {t.exc}" for t in s.threads if t.exc is not None]
+        if s.deadlock:
+            problems.append(f"deadlock {s.deadlock}")
+        elif s.abort_reason:
+            problems.append(f"run aborted: {s.abort_reason}")
+        frames = ll.take()
+    out, beacons = [], [f for f in frames if len(f) > 5 and f[5] >> 4 == 1]
+    for tag, t, ms in reqs:
+        if t == "beacon":
+            out.append((tag, t, ms, beacons.pop(0) if beacons else None))
+        else:
+            hit = [f for f in frames if f.endswith(tag)]
+            out.append((tag, t, ms, hit[0] if len(hit) == 1 else None))
+    return s, out, problems
+
+
+def judge_thread_run(sc, out, problems):
+    bad = list(problems)
+    for tag, t, ms, f in out:
+        who = tag.decode()
+        if f is None:
+            bad.append(f"threads '{sc['name']}': request {who} ({t}, {ms} ms): not exactly one packet on the wire")
+            continue
+        lt_ms = (f[2] >> 2) * UNITS[f[2] & 3]
+        want = 60000 if ms is None else ms
+        bl = oracle_lifetime(want, lt_ms)
+        bh = oracle_hops(t, 1 if t == "shb" else 7, 10, f[3], f[10])
+        if bl:
+            bad.append(f"threads '{sc['name']}': request {who} ({t}) asked for {want} ms, its packet carries {lt_ms} ms "
+                       f"({','.join(bl)}) - the lifetime of another request")
+        if bh:
+            bad.append(f"threads '{sc['name']}': request {who} ({t}): hop limits rhl={f[3]} mhl={f[10]} ({','.join(bh)})")
+    return bad
+
+
+def check_threads(ctx, clock, volume=1):
+    import dsched
+    for sc in thread_scenarios(ctx):
+        found = [False]
+
+        def once(prefix, sc=sc):
+            if found[0]:
+                return []
+            s, out, problems = run_thread_scenario(clock, sc, dsched.Replay(prefix))
+            ctx.evals()
+            ctx.cover("thread_runs")
+            ctx.cover("thread_preemptions_%d" % min(dsched.preemptions(s.steps), 3))
+            sched = [c[0] for c in s.steps]
+            for w in judge_thread_run(sc, out, problems):
+                if not found[0]:
+                    ctx.violation(w, {"kind": "threads", "scenario": sc, "schedule": sched})
+                found[0] = True
+            ctx.nontrivial(("threads", sc["name"], tuple(sched)))
+            return [] if found[0] else s.steps          # a failing run has no children: stop exploring this scenario
+        # pre-emption bound 1 (one thread is interrupted once, the others run to completion in between): exhaustive for
+        # the two-request scenarios (~140 schedules each), capped for the longer ones in the quick tier
+        cap = ctx.scale(160 if sum(len(t) for t in sc["threads"]) <= 2 else 30, 1200) * volume
+        runs, exhausted = dsched.enumerate_schedules(once, 1, cap, order="bfs")
+        ctx.cover("thread_scenarios_exhausted" if exhausted else "thread_scenarios_capped")
+        if not found[0]:
+            for i in range(ctx.scale(2, 40) * volume):
+                s, out, problems = run_thread_scenario(clock, sc, dsched.PCT(ctx.rng, depth=2 + i % 2, est_steps=300))
+                ctx.evals()
+                ctx.cover("thread_runs_pct")
+                bad = judge_thread_run(sc, out, problems)
+                for w in bad[:1]:
+                    ctx.violation(w, {"kind": "threads", "scenario": sc, "schedule": [c[0] for c in s.steps]})
+                if bad:
+                    break
+
+
 def bridge_report(ctx):
     """make the loss of a bridge obligation visible: evidence field + note + histogram key (the run then relies on the
     differential correspondence alone for the functions of that family)"""
@@ -574,6 +960,8 @@ def run(ctx):
             check_guard(ctx, clock)
             check_indication(ctx, clock)
             check_secured_shb(ctx, clock)
+            check_secured(ctx, capped, clock)
+            check_threads(ctx, clock)
     finally:
         router_mod.Timer = threading.Timer
 
@@ -597,6 +985,10 @@ def search(ctx):
                 check_router(ctx, capped, clock)
                 check_guard(ctx, clock)
                 check_indication(ctx, clock)
+                if not ctx.violations:
+                    check_secured(ctx, capped, clock)
+                if not ctx.violations:
+                    check_threads(ctx, clock, volume=3)
     finally:
         router_mod.Timer = old_timer
         ctx.model_ok = ok
@@ -656,6 +1048,31 @@ def replay(ctx, obj):
             router_mod.Timer = threading.Timer
         print(c.v or "ok")
         return bool(c.v)
+    if kind == "secured":
+        router_mod.Timer = _NoTimer
+        try:
+            with rs.VClock(1_700_000_000_000) as clock:
+                tx = SecTx(clock)
+                c = tuple(case["case"])
+                frames, exc = tx.emit(*c)
+                bad, _fid, rec = judge_secured(tx, c, frames, exc)
+                print(f"{list(c)} (real signer: {tx.real}) -> nh,lt,rhl,mhl={rec}: {bad or 'ok'}")
+                return bool(bad)
+        finally:
+            router_mod.Timer = threading.Timer
+    if kind == "threads":
+        import dsched
+        router_mod.Timer = _NoTimer
+        try:
+            with rs.VClock(1_700_000_000_000) as clock:
+                s, out, problems = run_thread_scenario(clock, case["scenario"], dsched.Replay(case.get("schedule", [])))
+                bad = judge_thread_run(case["scenario"], out, problems)
+                for tag, t, ms, f in out:
+                    print(f"  {tag.decode()} {t} request {ms} ms -> LT octet {('%#04x' % f[2]) if f else None}")
+                print(bad or "ok")
+                return bool(bad)
+        finally:
+            router_mod.Timer = threading.Timer
     if kind in ("router", "guard"):
         sub = Ctx_like(ctx)
         router_mod.Timer = _NoTimer
